@@ -114,7 +114,11 @@ fn main() {
                 }
             }
         }
-        (def.run)(&mut ctx);
+        // a panic that escapes here is a defect of the harness itself (the quiet panic hook would hide it)
+        if std::panic::catch_unwind(std::panic::AssertUnwindSafe(|| (def.run)(&mut ctx))).is_err() {
+            eprintln!("HARNESS-ERROR: the harness panicked in shard {s}: {:?}", vh::run::take_panics().last());
+            std::process::exit(2);
+        }
         let js = serde_json::to_string(&ctx.stats).unwrap();
         std::fs::write(out.expect("--out"), js).expect("cannot write shard output");
         std::process::exit(0);
